@@ -334,6 +334,12 @@ def target_shapes(w, deck, a):
     if a.get("turbo") and a.get("held") and not shapes.turbo_add_enabled:
         shapes.turbo_add_enabled = True
         w.stats.hit("turbo_on")
+    elif a.get("turbo") and a.get("held") and a.get("turbo_resync") and shapes.turbo_add_enabled:
+        # the caller switches the mode on again while it is on (what one does after adding through another route): ids start from the
+        # present maximum again
+        shapes.turbo_add_enabled = True
+        w.scratch["turbo_resynced_at"] = w.cur_event_index
+        w.stats.hit("turbo_resynced")
     g = a.get("group")
     if g is not None:
         groups = [s for s in walk_shapes(sl.shapes) if type(s).__name__ == "GroupShape"]
